@@ -30,7 +30,7 @@ import json
 
 from .. import corpus, opgen
 from ..engine import fork_call, ensure_repo_on_path, REPO
-from ..snapshot import enc, compare, path_class, digest
+from ..snapshot import enc, compare, path_class, digest, Ctx, excerpt
 from ..simfs import SimFS, SimCrash
 from ..interrupt import Interrupter, SimInterrupt
 
@@ -519,7 +519,7 @@ class Runner:
             self.pending = (path, base + new_rows)
             target = src if op["via"] == "desc" or not isinstance(
                 src, pytrs.PLSSDesc) else pytrs.TractList(src)
-            target.tracts_to_csv(op["attrs"], path, op["mode"],
+            target.tracts_to_csv(list(op["attrs"]), path, op["mode"],
                                  self.nice(op["nice"]))
             self.model[path] = base + new_rows
             return {"ok": None, "closed": path}
@@ -542,8 +542,11 @@ class Runner:
             self.dirty.add(path)
             self.writers[op["w"]] = w
             try:
-                w["obj"] = self.TW(op["attrs"], path, op["mode"],
-                                   plus_cols=op["plus"],
+                # the library gets its own copies: the model must not share
+                # a list with the code under test
+                w["obj"] = self.TW(list(op["attrs"]), path, op["mode"],
+                                   plus_cols=(list(op["plus"]) if op["plus"]
+                                              else op["plus"]),
                                    nice_headers=self.nice(op["nice"]),
                                    uid=op["uid"])
             except BaseException:
@@ -627,7 +630,7 @@ class Runner:
         if kind == "records":
             src = self.srcs[op["src"] % len(self.srcs)]
             tracts = tracts_of(pytrs, src)
-            attrs = op["attrs"]
+            attrs = list(op["attrs"])
             form = op["form"]
             want_d = [{a: getattr(t, a, f"{a}: n/a") for a in attrs}
                       for t in tracts]
@@ -658,15 +661,15 @@ class Runner:
                 else:
                     got, want = [t.to_list(grouped) for t in tracts], want_l
             elif form == "dict":
-                got, want = src.tracts_to_dict(attrs), want_d
+                got, want = src.tracts_to_dict(list(attrs)), want_d
             elif form == "list":
                 got, want = src.tracts_to_list(*attrs), want_l
             elif form == "iter_dict":
                 got, want = list(src.iter_to_dict(*attrs)), want_d
             elif form == "iter_list":
-                got, want = list(src.iter_to_list(attrs)), want_l
+                got, want = list(src.iter_to_list(list(attrs))), want_l
             elif form == "to_dict":
-                got, want = [t.to_dict(attrs) for t in tracts], want_d
+                got, want = [t.to_dict(list(attrs)) for t in tracts], want_d
             else:
                 got, want = [t.to_list(*attrs) for t in tracts], want_l
             path, _ = compare(enc(got), enc(want), exact=True)
@@ -718,6 +721,11 @@ def run_workload(plan, srcs, fault=None, interrupt=None, twin=None,
     kept_exc = []
     int_holder = []
     faulted_op = None
+    # an export reads its sources: it must leave them as they were (checked
+    # in the fault-free run, full snapshot incl. element identities)
+    src_ctx = Ctx()
+    src_before = [enc(s_, src_ctx, full=True) for s_ in srcs] \
+        if twin is None else None
     with fs.installed():
         for k, op in enumerate(ops):
             fs.op_tag = k
@@ -750,6 +758,18 @@ def run_workload(plan, srcs, fault=None, interrupt=None, twin=None,
             newly_fired = fs.fired is not None and fired_before is None
             if twin is None:
                 # ---- fault-free oracle
+                src_now = [enc(s_, src_ctx, full=True) for s_ in srcs]
+                for j_, (b_, a_) in enumerate(zip(src_before, src_now)):
+                    pth, _ = compare(b_, a_, exact=True)
+                    if pth is not None:
+                        problems.append({
+                            "oracle": "export_changed_source",
+                            "path": path_class(pth),
+                            "detail": {"op_index": k, "op": op, "source": j_,
+                                       "path": pth,
+                                       "before": excerpt(b_, pth),
+                                       "after": excerpt(a_, pth)}})
+                src_before = src_now
                 if "raised" in out:
                     problems.append({
                         "oracle": "export_raised", "path": out["raised"],
